@@ -365,6 +365,17 @@ class ChainBuild(Suite):
             dict(classes=[dict(K(0, 'Abc', params=[P('pattern'), P('tpl')]), name='abc'), dict(K(1, 'Dep', meta_inputs=[{'cls': 0}]), name='dep')],
                  files={}, base={'name': 'm', 'data': {'tasks': ['@M.*'], 'pattern': '\\d{4}-{X}', 'tpl': ["it's {}", 'part_{}.json', '\\w{2,3}']}},
                  context=None, global_vars={'X': 'v', 'Y': 7}),
+            # an input named by class whose class is not declared, while a grouped task of another class has the same short
+            # name: the optional one falls back to its default, the required one is reported as missing
+            dict(classes=[dict(K(0, 'Features'), name='features'), dict(K(1, 'LegacyFeatures', group='legacy'), name='features'),
+                          dict(K(2, 'Model', param_inputs=[dict(ref={'cls': 0}, default=[7])]), name='model')],
+                 files={}, base={'name': 'm', 'data': {'tasks': ['@M.LegacyFeatures', '@M.Model']}}, context=None),
+            dict(classes=[dict(K(0, 'Features'), name='features'), dict(K(1, 'LegacyFeatures', group='legacy'), name='features'),
+                          dict(K(2, 'Model', meta_inputs=[{'cls': 0}]), name='model')],
+                 files={}, base={'name': 'm', 'data': {'tasks': ['@M.LegacyFeatures', '@M.Model']}}, context=None),
+            dict(classes=[dict(K(0, 'Features'), name='features'), dict(K(1, 'LegacyFeatures', group='legacy'), name='features'),
+                          dict(K(2, 'Model', param_inputs=[dict(ref={'cls': 0}, default=[7])]), name='model')],
+                 files={'p.json': {'tasks': ['@M.LegacyFeatures', '@M.Model']}}, base={'name': 'm', 'data': {'uses': 'p.json as n'}}, context=None),
             # an input in a nested namespace whose name contains the outer namespace's name
             dict(classes=[dict(K(0, 'Producer'), name='producer'),
                           dict(K(1, 'Consumer', meta_inputs=[{'name': 'basemodel::producer'}]), name='consumer')],
